@@ -169,6 +169,11 @@ def r2(R2, cfg, F):
              'the inserted entry must be the Ok payload of load_and_record; it is %s' % ap, ins.loc())
 
 
+def PARAM(b, site, i):
+    """where the i-th argument of a call comes from, looking through the captures of a closure written in place"""
+    return common.strip_refs(common.arg_path(site, i))
+
+
 def r3(R3, cfg, F):
     def callers(rx):
         return sorted({c.body.path for c in F.calls_to(rx)})
@@ -191,7 +196,7 @@ def r3(R3, cfg, F):
         ok = False
         if len(look) == 1 and len(add) == 1:
             ok = common.guarded_by_variant(b, add[0].bb, [['call@bb%d' % look[0].bb]], 0)
-            ok = ok and b.access_path(add[0].args[1]) == ['arg2'] and b.access_path(add[0].args[2]) == ['arg3']
+            ok = ok and PARAM(b, add[0], 1) == ['arg2'] and PARAM(b, add[0], 2) == ['arg3']
         R3.check(ok, cfg, b.path, 'add_any-only-on-absent', 'get_or_insert must insert (id, default) only when the lookup found nothing', b.loc())
     # load_entry: add_asset only on the None arm
     b = F.body('<T as anycache::Cache>::load_entry')
@@ -203,8 +208,8 @@ def r3(R3, cfg, F):
         ok = False
         if len(look) == 1 and len(add) == 1:
             ok = common.guarded_by_variant(b, add[0].bb, [['call@bb%d' % look[0].bb]], 0)
-            ok = ok and b.access_path(add[0].args[1]) == ['arg2'] and b.access_path(add[0].args[2]) == ['arg3'] \
-                and b.access_path(look[0].args[1]) == ['arg2'] and b.access_path(look[0].args[2]) == ['arg3']
+            ok = ok and PARAM(b, add[0], 1) == ['arg2'] and PARAM(b, add[0], 2) == ['arg3'] \
+                and PARAM(b, look[0], 1) == ['arg2'] and PARAM(b, look[0], 2) == ['arg3']
             # and what the lookup found is what is returned on the other arm
             oks = [st for _, _, st in b.assigns() if st['place']['l'] == 0 and st['rv']['k'] == 'aggregate' and st['rv'].get('variant_name') == 'Ok']
             ok = ok and any(common.deep_path(b, st['rv']['ops'][0]) == ['call@bb%d' % look[0].bb, 'as:Some', '0'] for st in oks)
